@@ -160,7 +160,98 @@ def _instant_order(ctx) -> None:
                       "comparison ignores fold)"), m.loc(fn))
 
 
+def _direction_tabulate(ctx) -> None:
+    """DIRECTION.tabulated: `-` between values and diff() run by the checker's interpreter on instance stubs (rules/wallstub.py) with
+    pendulum and native operands: `a - b` must build Interval(b, a, absolute=False) - the native operand first turned into a
+    pendulum value with the same fields (naive stays naive, aware goes through instance()) -, `native - a` Interval(a, native'),
+    diff(b, abs) Interval(self, b, absolute=abs) with abs defaulting to True; operands of other types give NotImplemented."""
+    import datetime as _dt
+    from ..rules import minieval, wallstub
+    dm, dam = pmod("datetime"), pmod("date")
+    for cls, m in (("DateTime", dm), ("Date", dam)):
+        bad, n = [], 0
+        try:
+            w = wallstub.World(m, cls, extra=dam.methods("Date") if cls == "DateTime" else None)
+            made = []
+
+            def interval(a, b, absolute=False):
+                r = minieval.Stub(_iv=(a, b, absolute))
+                made.append(r)
+                return r
+            g = w.glob["$globals"]
+            g["Interval"] = minieval.ClassStub(_new=interval, _isa=lambda v: False)
+            g["timedelta"] = _dt.timedelta
+            g["date"] = _dt.date
+            g["NotImplemented"] = NotImplemented
+            pend = g["pendulum"]
+            vars(pend)["naive"] = lambda y, mo, d, h=0, mi=0, s_=0, us=0, fold=1: vars_set(w.datetime(_dt.datetime(y, mo, d, h, mi, s_, us), fold, zone=w.other_zone(None)), _naive=True)
+            vars(pend)["Interval"] = g["Interval"]
+            vars(pend)["interval"] = interval
+
+            def vars_set(o, **k):
+                vars(o).update(k)
+                return o
+
+            def same(x, want, how):
+                if how == "is":
+                    return x is want or (cls == "Date" and isinstance(x, minieval.Obj) and vars(x).get("_date") == vars(want).get("_date"))
+                if how == "instance":      # pendulum value made from the native `want`
+                    return isinstance(x, minieval.Obj) and (vars(x).get("_from") is want or (cls == "Date" and vars(x).get("_date") == want))
+                if how == "naive":
+                    return isinstance(x, minieval.Obj) and vars(x).get("_naive") and vars(x)["_wall"] == want
+                return False
+            if cls == "DateTime":
+                a = w.datetime(_dt.datetime(2021, 3, 1, 12, 0), 1)
+                vars(a)["instance"] = lambda dt, tz=None: vars_set(w.datetime(dt.replace(tzinfo=None), dt.fold, zone=w.other_zone(dt.tzinfo)), _from=dt)
+                b = w.datetime(_dt.datetime(2021, 2, 1, 8, 30), 0)
+                aware = _dt.datetime(2021, 1, 1, 5, 0, tzinfo=_dt.timezone(_dt.timedelta(hours=3)))
+                naive = _dt.datetime(2021, 1, 1, 5, 0, 0, 7)
+                cases = [("__sub__", b, ("iv", (b, "is"), (a, "is"), False)), ("__sub__", aware, ("iv", (aware, "instance"), (a, "is"), False)),
+                         ("__sub__", naive, ("iv", (naive, "naive"), (a, "is"), False)), ("__sub__", 5, ("ni",)), ("__sub__", "x", ("ni",)),
+                         ("__rsub__", aware, ("iv", (a, "is"), (aware, "instance"), False)), ("__rsub__", naive, ("iv", (a, "is"), (naive, "naive"), False)),
+                         ("__rsub__", 5, ("ni",)), ("__rsub__", b, ("iv", (a, "is"), (b, "is"), False))]
+            else:
+                a = w.date(_dt.date(2021, 3, 1))
+                b = w.date(_dt.date(2021, 2, 1))
+                nat = _dt.date(2020, 2, 29)
+                cases = [("__sub__", b, ("iv", (_dt.date(2021, 2, 1), "instance"), (a, "is"), False)), ("__sub__", nat, ("iv", (nat, "instance"), (a, "is"), False)),
+                         ("__sub__", 5, ("ni",)), ("__sub__", "x", ("ni",))]
+            for meth, other, want in cases:
+                if meth not in w.meths:
+                    continue
+                n += 1
+                label = f"{cls}.{meth}({other if not isinstance(other, minieval.Obj) else 'pendulum value'!r})"
+                got = w.call(a, meth, [other])
+                if want[0] == "ni":
+                    if got is not NotImplemented:
+                        bad.append(f"{label}: returns {got!r} (expected NotImplemented)")
+                    continue
+                iv = getattr(got, "_iv", None)
+                if iv is None:
+                    bad.append(f"{label}: does not return an Interval")
+                elif not (same(iv[0], *want[1]) and same(iv[1], *want[2])):
+                    bad.append(f"{label}: Interval is built from the wrong / wrongly normalised end points (start: {'ok' if same(iv[0], *want[1]) else 'wrong'}, end: "
+                               f"{'ok' if same(iv[1], *want[2]) else 'wrong'}); `a - b` runs from b to a")
+                elif bool(iv[2]) != want[3]:
+                    bad.append(f"{label}: absolute={iv[2]!r}")
+            if "diff" in w.meths:
+                for absarg, wantabs in (([b, False], False), ([b, True], True), ([b], True)):
+                    n += 1
+                    got = w.call(a, "diff", list(absarg))
+                    iv = getattr(got, "_iv", None)
+                    if iv is None or iv[0] is not a or not (iv[1] is b or (cls == "Date" and vars(iv[1]).get("_date") == vars(b)["_date"])) or bool(iv[2]) != wantabs:
+                        bad.append(f"{cls}.diff({'b, ' + str(absarg[1]) if len(absarg) > 1 else 'b'}): Interval{tuple('a' if x is a else 'b' if x is b else '?' for x in (iv or (None, None))[:2])} absolute={iv[2] if iv else None}")
+        except wallstub.ERRORS + (ValueError, minieval.Raised) as e:
+            ctx.unverified("DIRECTION.tabulated", f"{cls}", f"outside the checker's interpreter: {type(e).__name__}: {e}", m.rel)
+            continue
+        ctx.ob("DIRECTION.tabulated", f"{cls}.__sub__/__rsub__/diff", not bad, f"{n} cases: " + (f"wrong: {bad[:3]}" if bad else
+               "a - b is Interval(b, a), native - a is Interval(a, native), diff(b, abs) is Interval(self, b, absolute=abs)"), m.rel)
+        if not bad:
+            ctx.established(("DIRECTION", "NORMALISE", "DEFAULTS.abs", "ABS"), f"{cls}.", "DIRECTION.tabulated")
+
+
 def _direction(ctx) -> None:
+    _direction_tabulate(ctx)
     dm, dam, im = pmod("datetime"), pmod("date"), pmod("__init__")
 
     def final_returns(m, q):
